@@ -280,6 +280,10 @@ class UnstackQInner(ArrayExpr):
     def _name(self):
         return f"unstack-q-{self.deterministic_token}"
 
+    def _requires_grid_preservation(self, dependency):
+        # ``_layer`` pairs the blocks of several inputs by position
+        return True
+
     def _layer(self):
         dsk = {}
         block_sizes = self.r_chunks
@@ -347,6 +351,10 @@ class BlockDot(ArrayExpr):
     @functools.cached_property
     def _name(self):
         return f"block-dot-{self.deterministic_token}"
+
+    def _requires_grid_preservation(self, dependency):
+        # ``_layer`` pairs the blocks of several inputs by position
+        return True
 
     def _layer(self):
         dsk = {}
